@@ -82,6 +82,7 @@ def run_property(prop: str, tier: str, repo: str, overlay=None, seed: int = 0, k
     from . import symex
     symex.INLINER = symex.Inliner(ctx)
     symex._CACHE.clear()
+    symex._PARAM_MUT.clear()
     _install_rule_guards()
     ctx.errors = []
     _CURRENT[0] = ctx
